@@ -117,7 +117,11 @@ func (env *verifEnv) c10TokenSinks() []c10Sink {
 			}()
 			req := verifNewRequest("POST", totpAuthPath, nil)
 			req.Header.Set("Cookie", authCookieName+"="+raw)
-			if _, err := st.updateAuthCookieAuthlevel(httptest.NewRecorder(), req, AuthTypeTOTP); err != nil {
+			sub := ""
+			if _, claims, ok := tokParse(raw); ok {
+				sub, _ = claims["sub"].(string)
+			}
+			if _, err := st.updateAuthCookieAuthlevel(httptest.NewRecorder(), req, sub, AuthTypeTOTP); err != nil {
 				return false, 400
 			}
 			return false, 200
